@@ -236,6 +236,11 @@ func init() {
 		checkProducerConsumer(r, prog, a, ga, "c01")
 		checkTreeHandedOver(r, prog, a, "c01")
 		checkMatchesSubject(r, prog, a, "c01")
+		checkInOnString(r, prog, a, "c01")
+		checkRegexpSource(r, prog, a, "c01")
+		r.importing = "C14"
+		checkUnorderedSources(r, prog, a, "c14") // what an expression denotes does not depend on Go's map order
+		r.importing = ""
 		// the semantic skeleton: the clauses of the statement are the rule sets of C02–C07
 		r.importing = "C03"
 		checkConnectives(r, prog, a, "c03")
